@@ -1,2 +1,349 @@
+// ======================================================================================
+// Prelude of the splay unit: the abstract model (hand-written specification, no code from /repo).
+// ======================================================================================
+
 pub assume_specification<T> [std::mem::replace] (dest: &mut T, src: T) -> (res: T)
     ensures res == *old(dest), *final(dest) == src;
+
+// derived PartialEq of std::cmp::Ordering is structural equality
+pub assume_specification [<Ordering as PartialEq>::eq] (a: &Ordering, b: &Ordering) -> (r: bool)
+    ensures r == (*a == *b);
+
+// ---- comparator model -----------------------------------------------------------------
+// ord(c, x, y): the answer the comparator closure gives on (x, y).
+pub open spec fn ord<K, C: Fn(&K, &K) -> Ordering>(c: C, x: K, y: K) -> Ordering {
+    choose|r: Ordering| call_ensures(c, (&x, &y), r)
+}
+
+// the comparator can be called on everything and is a function of its arguments
+pub open spec fn cmp_callable<K, C: Fn(&K, &K) -> Ordering>(c: C) -> bool {
+    &&& forall|x: &K, y: &K| call_requires(c, (x, y))
+    &&& forall|x: &K, y: &K, r: Ordering| call_ensures(c, (x, y), r) ==> r == ord(c, *x, *y)
+}
+
+// "consistent comparator": a strict weak order (Equal is a congruence, Less is transitive,
+// Less/Greater are mirror images)
+#[verifier::opaque]
+pub open spec fn cmp_laws<K, C: Fn(&K, &K) -> Ordering>(c: C) -> bool {
+    &&& forall|x: K, y: K| (ord(c, x, y) == Ordering::Less) <==> (#[trigger] ord(c, y, x) == Ordering::Greater)
+    &&& forall|x: K, y: K, z: K| ord(c, x, y) == Ordering::Less && ord(c, y, z) == Ordering::Less ==> ord(c, x, z) == Ordering::Less
+    &&& forall|x: K, y: K, z: K| ord(c, x, y) == Ordering::Equal ==> ord(c, x, z) == ord(c, y, z)
+}
+
+pub open spec fn cmp_ok<K, C: Fn(&K, &K) -> Ordering>(c: C) -> bool {
+    cmp_callable(c) && cmp_laws(c)
+}
+
+pub proof fn law_flip<K, C: Fn(&K, &K) -> Ordering>(c: C, x: K, y: K)
+    requires cmp_laws(c),
+    ensures
+        (ord(c, x, y) == Ordering::Less) <==> (ord(c, y, x) == Ordering::Greater),
+        (ord(c, x, y) == Ordering::Greater) <==> (ord(c, y, x) == Ordering::Less),
+        (ord(c, x, y) == Ordering::Equal) <==> (ord(c, y, x) == Ordering::Equal),
+{
+    reveal(cmp_laws);
+    assert((ord(c, y, x) == Ordering::Less) <==> (ord(c, x, y) == Ordering::Greater));
+}
+
+pub proof fn law_trans<K, C: Fn(&K, &K) -> Ordering>(c: C, x: K, y: K, z: K)
+    requires cmp_laws(c), ord(c, x, y) == Ordering::Less, ord(c, y, z) == Ordering::Less,
+    ensures ord(c, x, z) == Ordering::Less,
+{
+    reveal(cmp_laws);
+}
+
+pub proof fn law_eq_left<K, C: Fn(&K, &K) -> Ordering>(c: C, x: K, y: K, z: K)
+    requires cmp_laws(c), ord(c, x, y) == Ordering::Equal,
+    ensures ord(c, x, z) == ord(c, y, z), ord(c, z, x) == ord(c, z, y),
+{
+    reveal(cmp_laws);
+    law_flip(c, x, z);
+    law_flip(c, y, z);
+}
+
+// ---- abstract view ----------------------------------------------------------------------
+pub open spec fn inorder<K, V>(t: Option<Box<Node<K, V>>>) -> Seq<(K, V)>
+    decreases t
+{
+    match t {
+        None => Seq::empty(),
+        Some(n) => inorder(n.left) + seq![(n.key, n.value)] + inorder(n.right),
+    }
+}
+
+pub open spec fn nseq<K, V>(n: Node<K, V>) -> Seq<(K, V)> {
+    inorder(n.left) + seq![(n.key, n.value)] + inorder(n.right)
+}
+
+// strictly increasing keys
+pub open spec fn sorted<K, V, C: Fn(&K, &K) -> Ordering>(c: C, s: Seq<(K, V)>) -> bool {
+    forall|i: int, j: int| 0 <= i < j < s.len() ==> ord(c, #[trigger] s[i].0, #[trigger] s[j].0) == Ordering::Less
+}
+
+// every key of s is below `key` / above `key`
+pub open spec fn all_lt<K, V, C: Fn(&K, &K) -> Ordering>(c: C, s: Seq<(K, V)>, key: K) -> bool {
+    forall|i: int| 0 <= i < s.len() ==> ord(c, key, #[trigger] s[i].0) == Ordering::Greater
+}
+
+pub open spec fn all_gt<K, V, C: Fn(&K, &K) -> Ordering>(c: C, s: Seq<(K, V)>, key: K) -> bool {
+    forall|i: int| 0 <= i < s.len() ==> ord(c, key, #[trigger] s[i].0) == Ordering::Less
+}
+
+// ---- sequence lemmas ----------------------------------------------------------------------
+pub proof fn lemma_sorted_sub<K, V, C: Fn(&K, &K) -> Ordering>(c: C, a: Seq<(K, V)>, m: Seq<(K, V)>, b: Seq<(K, V)>)
+    requires sorted(c, a + m + b),
+    ensures sorted(c, a), sorted(c, m), sorted(c, b), sorted(c, a + m), sorted(c, m + b),
+{
+    let s = a + m + b;
+    assert forall|i: int, j: int| 0 <= i < j < a.len() implies ord(c, #[trigger] a[i].0, #[trigger] a[j].0) == Ordering::Less by {
+        assert(s[i] == a[i]); assert(s[j] == a[j]);
+    }
+    assert forall|i: int, j: int| 0 <= i < j < m.len() implies ord(c, #[trigger] m[i].0, #[trigger] m[j].0) == Ordering::Less by {
+        assert(s[a.len() + i] == m[i]); assert(s[a.len() + j] == m[j]);
+    }
+    assert forall|i: int, j: int| 0 <= i < j < b.len() implies ord(c, #[trigger] b[i].0, #[trigger] b[j].0) == Ordering::Less by {
+        assert(s[a.len() + m.len() + i] == b[i]); assert(s[a.len() + m.len() + j] == b[j]);
+    }
+    assert forall|i: int, j: int| 0 <= i < j < (a + m).len() implies ord(c, #[trigger] (a + m)[i].0, #[trigger] (a + m)[j].0) == Ordering::Less by {
+        assert(s[i] == (a + m)[i]); assert(s[j] == (a + m)[j]);
+    }
+    assert forall|i: int, j: int| 0 <= i < j < (m + b).len() implies ord(c, #[trigger] (m + b)[i].0, #[trigger] (m + b)[j].0) == Ordering::Less by {
+        assert(s[a.len() + i] == (m + b)[i]); assert(s[a.len() + j] == (m + b)[j]);
+    }
+}
+
+pub proof fn lemma_sorted_2<K, V, C: Fn(&K, &K) -> Ordering>(c: C, a: Seq<(K, V)>, b: Seq<(K, V)>)
+    requires sorted(c, a + b),
+    ensures sorted(c, a), sorted(c, b),
+{
+    assert(a + b =~= a + b + Seq::<(K, V)>::empty());
+    lemma_sorted_sub(c, a, b, Seq::<(K, V)>::empty());
+}
+
+// head above key ==> everything above key
+pub proof fn lemma_all_gt_from_head<K, V, C: Fn(&K, &K) -> Ordering>(c: C, s: Seq<(K, V)>, key: K)
+    requires cmp_laws(c), sorted(c, s), s.len() > 0, ord(c, key, s[0].0) == Ordering::Less,
+    ensures all_gt(c, s, key),
+{
+    assert forall|i: int| 0 <= i < s.len() implies ord(c, key, #[trigger] s[i].0) == Ordering::Less by {
+        if i > 0 {
+            assert(ord(c, s[0].0, s[i].0) == Ordering::Less);
+            law_trans(c, key, s[0].0, s[i].0);
+        }
+    }
+}
+
+// last below key ==> everything below key
+pub proof fn lemma_all_lt_from_last<K, V, C: Fn(&K, &K) -> Ordering>(c: C, s: Seq<(K, V)>, key: K)
+    requires cmp_laws(c), sorted(c, s), s.len() > 0, ord(c, key, s[s.len() - 1].0) == Ordering::Greater,
+    ensures all_lt(c, s, key),
+{
+    let l = s.len() - 1;
+    assert forall|i: int| 0 <= i < s.len() implies ord(c, key, #[trigger] s[i].0) == Ordering::Greater by {
+        law_flip(c, key, s[l].0);
+        if i < l {
+            assert(ord(c, s[i].0, s[l].0) == Ordering::Less);
+            law_trans(c, s[i].0, s[l].0, key);
+        }
+        law_flip(c, key, s[i].0);
+    }
+}
+
+pub proof fn lemma_all_cat<K, V, C: Fn(&K, &K) -> Ordering>(c: C, a: Seq<(K, V)>, b: Seq<(K, V)>, key: K)
+    ensures
+        all_lt(c, a, key) && all_lt(c, b, key) <==> all_lt(c, a + b, key),
+        all_gt(c, a, key) && all_gt(c, b, key) <==> all_gt(c, a + b, key),
+{
+    let s = a + b;
+    if all_lt(c, s, key) {
+        assert forall|i: int| 0 <= i < a.len() implies ord(c, key, #[trigger] a[i].0) == Ordering::Greater by { assert(s[i] == a[i]); }
+        assert forall|i: int| 0 <= i < b.len() implies ord(c, key, #[trigger] b[i].0) == Ordering::Greater by { assert(s[a.len() + i] == b[i]); }
+    }
+    if all_gt(c, s, key) {
+        assert forall|i: int| 0 <= i < a.len() implies ord(c, key, #[trigger] a[i].0) == Ordering::Less by { assert(s[i] == a[i]); }
+        assert forall|i: int| 0 <= i < b.len() implies ord(c, key, #[trigger] b[i].0) == Ordering::Less by { assert(s[a.len() + i] == b[i]); }
+    }
+}
+
+// The situation at every exit of the splay loop: the root compares Equal to the key, or the
+// key is below the root and the root has no left child, or above and no right child.
+pub proof fn lemma_split<K, V, C: Fn(&K, &K) -> Ordering>(c: C, n: Node<K, V>, key: K)
+    requires
+        cmp_laws(c), sorted(c, nseq(n)),
+        ord(c, key, n.key) == Ordering::Equal
+          || (ord(c, key, n.key) == Ordering::Less && n.left.is_none())
+          || (ord(c, key, n.key) == Ordering::Greater && n.right.is_none()),
+    ensures all_lt(c, inorder(n.left), key), all_gt(c, inorder(n.right), key),
+{
+    let l = inorder(n.left);
+    let r = inorder(n.right);
+    let s = nseq(n);
+    let e = (n.key, n.value);
+    assert(s[l.len() as int] == e);
+    assert forall|i: int| 0 <= i < l.len() implies ord(c, key, #[trigger] l[i].0) == Ordering::Greater by {
+        assert(s[i] == l[i]);
+        assert(ord(c, s[i].0, s[l.len() as int].0) == Ordering::Less);   // l[i] < n.key
+        law_flip(c, l[i].0, n.key);
+        if ord(c, key, n.key) == Ordering::Equal {
+            law_eq_left(c, key, n.key, l[i].0);
+        } else if ord(c, key, n.key) == Ordering::Greater {
+            law_flip(c, key, n.key);
+            law_trans(c, l[i].0, n.key, key);
+            law_flip(c, key, l[i].0);
+        }
+    }
+    assert forall|i: int| 0 <= i < r.len() implies ord(c, key, #[trigger] r[i].0) == Ordering::Less by {
+        assert(s[l.len() + 1 + i] == r[i]);
+        assert(ord(c, s[l.len() as int].0, s[l.len() + 1 + i].0) == Ordering::Less);   // n.key < r[i]
+        if ord(c, key, n.key) == Ordering::Equal {
+            law_eq_left(c, key, n.key, r[i].0);
+        } else if ord(c, key, n.key) == Ordering::Less {
+            law_trans(c, key, n.key, r[i].0);
+        }
+    }
+}
+
+// ---- the tree as a sorted map -------------------------------------------------------------
+impl<K, V, C: Fn(&K, &K) -> Ordering> SplayTree<K, V, C> {
+    // abstract value: the strictly sorted sequence of (key, value) pairs
+    pub closed spec fn view(&self) -> Seq<(K, V)> {
+        inorder(self.root)
+    }
+
+    pub closed spec fn cmp(&self) -> C {
+        self.comparator
+    }
+
+    pub closed spec fn count(&self) -> usize {
+        self.size
+    }
+
+    // representation invariant
+    pub open spec fn wf(&self) -> bool {
+        &&& cmp_ok(self.cmp())
+        &&& sorted(self.cmp(), self.view())
+        &&& self.count() == self.view().len()
+    }
+}
+
+// no element of s compares Equal to key
+pub open spec fn no_eq<K, V, C: Fn(&K, &K) -> Ordering>(c: C, s: Seq<(K, V)>, key: K) -> bool {
+    forall|i: int| 0 <= i < s.len() ==> ord(c, key, #[trigger] s[i].0) != Ordering::Equal
+}
+
+// s[i] is the element that compares Equal to key
+pub open spec fn eq_at<K, V, C: Fn(&K, &K) -> Ordering>(c: C, s: Seq<(K, V)>, key: K, i: int) -> bool {
+    0 <= i < s.len() && ord(c, key, s[i].0) == Ordering::Equal
+}
+
+// s[i] is the first element above key (the successor of key)
+pub open spec fn succ_at<K, V, C: Fn(&K, &K) -> Ordering>(c: C, s: Seq<(K, V)>, key: K, i: int) -> bool {
+    &&& 0 <= i < s.len()
+    &&& ord(c, key, s[i].0) == Ordering::Less
+    &&& forall|j: int| 0 <= j < i ==> ord(c, key, #[trigger] s[j].0) != Ordering::Less
+}
+
+pub open spec fn no_succ<K, V, C: Fn(&K, &K) -> Ordering>(c: C, s: Seq<(K, V)>, key: K) -> bool {
+    forall|j: int| 0 <= j < s.len() ==> ord(c, key, #[trigger] s[j].0) != Ordering::Less
+}
+
+// s[i] is the last element below key (the predecessor of key)
+pub open spec fn pred_at<K, V, C: Fn(&K, &K) -> Ordering>(c: C, s: Seq<(K, V)>, key: K, i: int) -> bool {
+    &&& 0 <= i < s.len()
+    &&& ord(c, key, s[i].0) == Ordering::Greater
+    &&& forall|j: int| i < j < s.len() ==> ord(c, key, #[trigger] s[j].0) != Ordering::Greater
+}
+
+pub open spec fn no_pred<K, V, C: Fn(&K, &K) -> Ordering>(c: C, s: Seq<(K, V)>, key: K) -> bool {
+    forall|j: int| 0 <= j < s.len() ==> ord(c, key, #[trigger] s[j].0) != Ordering::Greater
+}
+
+// after a splay: where the root sits in the sequence, and what a lookup at the root means
+pub proof fn lemma_root_lookup<K, V, C: Fn(&K, &K) -> Ordering>(c: C, n: Node<K, V>, key: K)
+    requires all_lt(c, inorder(n.left), key), all_gt(c, inorder(n.right), key),
+    ensures
+        nseq(n)[inorder(n.left).len() as int] == (n.key, n.value),
+        ord(c, key, n.key) == Ordering::Equal ==> eq_at(c, nseq(n), key, inorder(n.left).len() as int),
+        ord(c, key, n.key) != Ordering::Equal ==> no_eq(c, nseq(n), key),
+{
+    let l = inorder(n.left);
+    let r = inorder(n.right);
+    let s = nseq(n);
+    assert forall|i: int| 0 <= i < s.len() && i != l.len() implies ord(c, key, #[trigger] s[i].0) != Ordering::Equal by {
+        if i < l.len() {
+            assert(s[i] == l[i]);
+        } else {
+            assert(s[i] == r[i - l.len() - 1]);
+        }
+    }
+}
+
+// key is not below the root ==> key is not below anything in (left subtree + root)
+pub proof fn lemma_prefix_not_above<K, V, C: Fn(&K, &K) -> Ordering>(c: C, n: Node<K, V>, key: K)
+    requires cmp_laws(c), sorted(c, nseq(n)), ord(c, key, n.key) != Ordering::Less,
+    ensures no_succ(c, inorder(n.left) + seq![(n.key, n.value)], key),
+{
+    let l = inorder(n.left);
+    let s = nseq(n);
+    let p = l + seq![(n.key, n.value)];
+    assert(s[l.len() as int] == (n.key, n.value));
+    assert forall|j: int| 0 <= j < p.len() implies ord(c, key, #[trigger] p[j].0) != Ordering::Less by {
+        if j < l.len() {
+            assert(p[j] == l[j]);
+            assert(s[j] == l[j]);
+            assert(ord(c, s[j].0, s[l.len() as int].0) == Ordering::Less);    // l[j] < n.key
+            if ord(c, key, n.key) == Ordering::Equal {
+                law_eq_left(c, key, n.key, l[j].0);
+                law_flip(c, n.key, l[j].0);
+            } else {
+                law_flip(c, key, n.key);
+                law_trans(c, l[j].0, n.key, key);
+                law_flip(c, key, l[j].0);
+            }
+        } else {
+            assert(p[j] == (n.key, n.value));
+        }
+    }
+}
+
+// key is not above the root ==> key is not above anything in (root + right subtree)
+pub proof fn lemma_suffix_not_below<K, V, C: Fn(&K, &K) -> Ordering>(c: C, n: Node<K, V>, key: K)
+    requires cmp_laws(c), sorted(c, nseq(n)), ord(c, key, n.key) != Ordering::Greater,
+    ensures no_pred(c, seq![(n.key, n.value)] + inorder(n.right), key),
+{
+    let l = inorder(n.left);
+    let r = inorder(n.right);
+    let s = nseq(n);
+    let p = seq![(n.key, n.value)] + r;
+    assert(s[l.len() as int] == (n.key, n.value));
+    assert forall|j: int| 0 <= j < p.len() implies ord(c, key, #[trigger] p[j].0) != Ordering::Greater by {
+        if j > 0 {
+            assert(p[j] == r[j - 1]);
+            assert(s[l.len() + j] == r[j - 1]);
+            assert(ord(c, s[l.len() as int].0, s[l.len() + j].0) == Ordering::Less);    // n.key < r[j-1]
+            if ord(c, key, n.key) == Ordering::Equal {
+                law_eq_left(c, key, n.key, r[j - 1].0);
+            } else {
+                law_trans(c, key, n.key, r[j - 1].0);
+            }
+        } else {
+            assert(p[j] == (n.key, n.value));
+        }
+    }
+}
+
+pub proof fn lemma_no_cat<K, V, C: Fn(&K, &K) -> Ordering>(c: C, a: Seq<(K, V)>, b: Seq<(K, V)>, key: K)
+    ensures
+        no_succ(c, a, key) && no_succ(c, b, key) <==> no_succ(c, a + b, key),
+        no_pred(c, a, key) && no_pred(c, b, key) <==> no_pred(c, a + b, key),
+{
+    let s = a + b;
+    if no_succ(c, s, key) {
+        assert forall|i: int| 0 <= i < a.len() implies ord(c, key, #[trigger] a[i].0) != Ordering::Less by { assert(s[i] == a[i]); }
+        assert forall|i: int| 0 <= i < b.len() implies ord(c, key, #[trigger] b[i].0) != Ordering::Less by { assert(s[a.len() + i] == b[i]); }
+    }
+    if no_pred(c, s, key) {
+        assert forall|i: int| 0 <= i < a.len() implies ord(c, key, #[trigger] a[i].0) != Ordering::Greater by { assert(s[i] == a[i]); }
+        assert forall|i: int| 0 <= i < b.len() implies ord(c, key, #[trigger] b[i].0) != Ordering::Greater by { assert(s[a.len() + i] == b[i]); }
+    }
+}
